@@ -583,6 +583,31 @@ func (p *project) randomEdit(r *Rng, cur *tree) (string, []op, bool) {
 		}
 	}
 	pickLive := func() *module { return live[r.Intn(len(live))] }
+	removedKeys := func() []string {
+		var ks []string
+		for k := range p.removed {
+			ks = append(ks, k)
+		}
+		sort.Strings(ks)
+		return ks
+	}
+	// pending breakage is repaired with priority so that most steps build successfully
+	if r.Chance(45) {
+		for _, m := range live {
+			if m.broken {
+				m.broken = false
+				return "repair syntax error in " + m.rel(), nil, false
+			}
+		}
+		if p.ts.brokenJSON {
+			p.ts.brokenJSON = false
+			return "tsconfig brokenJSON=false", nil, true
+		}
+		if ks := removedKeys(); len(ks) > 0 {
+			delete(p.removed, ks[0])
+			return "restore " + ks[0], nil, false
+		}
+	}
 	for {
 		switch r.Intn(24) {
 		case 0, 1, 2: // content edit (length may change)
@@ -609,9 +634,9 @@ func (p *project) randomEdit(r *Rng, cur *tree) (string, []op, bool) {
 			im.imports = append(im.imports, "./"+nm.name)
 			return "create " + nm.rel() + " imported from " + im.rel(), nil, false
 		case 6: // delete a module (importers keep the import: resolution error), or restore one
-			for k := range p.removed {
-				delete(p.removed, k)
-				return "restore " + k, nil, false
+			if ks := removedKeys(); len(ks) > 0 {
+				delete(p.removed, ks[0])
+				return "restore " + ks[0], nil, false
 			}
 			if len(live) < 3 {
 				continue
